@@ -1,2 +1,47 @@
-(* C06 -- placeholder *)
-Theorem C06_placeholder : True. Proof. exact I. Qed.
+(* C06 -- permessage-deflate is lossless both ways for every negotiated configuration.  Statements only.  PARTIAL:
+   DEFLATE (zlib) is not modelled.  It enters as an oracle (Section variables) with two laws, which are hypotheses of the
+   theorem and are checked against real zlib only by the correspondence runs (an independent RFC 7692 peer, all 256
+   parameter combinations): a fresh deflater and a fresh inflater are in sync; if they are in sync, inflating what the
+   deflater produced for m returns m and leaves them in sync.  The negotiated window sizes are parameters of the oracle. *)
+From Coq Require Import List NArith Bool.
+From Coq.Strings Require Import Byte.
+From Model Require Import Bytes Response Conn Compression.
+From Proofs Require Import CompressionFacts.
+Import ListNotations.
+
+(* for every message history with per-message compress flags, both no_context_takeover settings, and every way of
+   cutting each message's wire payload into fragments: the receiving side -- which inflates compressed messages in wire
+   order with ONE context that it replaces after a message iff no_context_takeover was negotiated -- recovers exactly
+   the messages sent.  Instantiated with (sender = lomond, receiver = peer) this is the send half of C06, with
+   (sender = peer, receiver = lomond's Deflate.decompress) the receive half. *)
+Theorem C06_lossless : forall (zctx : Type) (fresh : zctx)
+    (deflate : zctx -> bytes -> bytes * zctx) (inflate : zctx -> bytes -> option (bytes * zctx))
+    (in_sync : zctx -> zctx -> Prop),
+  in_sync fresh fresh ->
+  (forall c d m z c', in_sync c d -> deflate c m = (z, c') -> exists d', inflate d z = Some (m, d') /\ in_sync c' d') ->
+  forall negotiated nct msgs c d fs,
+    in_sync c d ->
+    fragmented (send_all zctx fresh deflate negotiated nct c msgs) fs ->
+    recv_all zctx fresh inflate nct d fs = Some (map fst msgs).
+Proof. intros zctx fresh deflate inflate in_sync H1 H2. exact (transfer_lossless zctx fresh deflate inflate in_sync H1 H2). Qed.
+Print Assumptions C06_lossless.
+
+(* RSV1 is never set without negotiation, nor with compress=False *)
+Theorem C06_no_rsv1_without_negotiation : forall zctx fresh deflate nct c m z,
+  fst (fst (send1 zctx fresh deflate false nct c m z)) = false.
+Proof. intros. apply no_rsv1_without_negotiation. Qed.
+Theorem C06_no_rsv1_when_not_requested : forall zctx fresh deflate negotiated nct c m,
+  fst (send1 zctx fresh deflate negotiated nct c m false) = (false, m).
+Proof. intros. apply no_rsv1_when_not_requested. Qed.
+
+(* the connection model drives the oracle exactly like send1: one deflate result per compressed send, a new context
+   epoch iff client_no_context_takeover *)
+Theorem C06_model_uses_oracle_in_order : forall c op p d, k_deflate c = Some d ->
+  let c' := fst (send_data c op p true) in
+  k_zout c' = (if c_reset d then N.succ (k_zout c) else k_zout c) /\ k_ctape c' = tl (k_ctape c).
+Proof. exact send_data_epoch. Qed.
+Print Assumptions C06_model_uses_oracle_in_order.
+
+(* window-size parameters outside 8..15 (or not a number) never yield a configuration *)
+Theorem C06_params_in_range : forall opts k n, get_wbits opts k = Some n -> (8 <= n <= 15)%N.
+Proof. exact wbits_in_range. Qed.
